@@ -118,7 +118,7 @@ def main():
                      "kind_free_text": "explicit TLA+ specification family checked with TLC 1.8; bound to the implementation by replaying TLC-enumerated rows/behaviours into the code and by validating recorded executions against the specification"}],
         "checks": checks,
         "not_applicable": na,
-        "notes": "fix: commits in /repo (see known_findings.json): D1 90db414, D2 2bf5538, D3 cebd2d4, D4 9f1396f, D5 63c6bc7, D6 860ec5b, D7 ace73f0, D12 b286001, D13 9d06957, D15 79523f2, D10a c7e018f, D10b 3391679, D10c a225f7f. Known (unrepaired) findings: D8, D9, D14.",
+        "notes": "fix: commits in /repo (see known_findings.json): D1 90db414, D2 2bf5538, D3 cebd2d4, D4 9f1396f, D5 63c6bc7, D6 860ec5b, D7 ace73f0, D12 b286001, D13 9d06957, D15 79523f2, D10a c7e018f, D10b 3391679, D10c a225f7f, D16 2afe860. Known (unrepaired) findings: D8, D9, D14.",
     }
     json.dump(m, open(os.path.join(HERE, "MANIFEST.json"), "w"), indent=1)
     print("checks:", [c["property_id"] for c in checks], "not_applicable:", len(na))
